@@ -39,6 +39,7 @@ CONSTANTS PatSet,       \* set of pattern names to explore
           Mismatches,   \* subset of {"none","prologue","psk","rs_i","rs_r","rs_i_bit","rs_r_bit"}: one context item differs (C08)
           ExtraRs,      \* subset of BOOLEAN: also hand the peer's static key to a party the pattern only TRANSMITS it to (C17)
           ExtraPsks,    \* subset of BOOLEAN: also supply keys in psk slots the pattern does not use (must change nothing: C12)
+          Hfs,          \* BOOLEAN: the name carries the hfs modifier and a KEM (interactive patterns; hfs build of the crate)
           OddNames,     \* BOOLEAN: name the protocol with a non-canonical spelling of its psk numerals (psk03 for psk3)
           Emit          \* BOOLEAN: print scenarios
 
@@ -119,12 +120,13 @@ Lates(p, ps) == IF LatePsk THEN {<<"-", 0>>} \cup { <<id, n>> : id \in {"I", "R"
 Init ==
   /\ \E p \in PatSet, pl \in PubLens, ip \in InitPads, prof \in Profiles, v \in Variants, fx \in FixedEs, bm \in BufModes :
        \E ps \in PskSets(p) : \E late \in Lates(p, ps) : \E mm \in Mismatches : \E ow \in Ows(p, ps) : \E ex \in ExtraPsks : \E xr \in ExtraRs :
+         /\ (Hfs => HfsApplies(p))
          /\ (ow # NoOw => late = <<"-", 0>> /\ mm = "none")
          /\ (mm = "psk" => ps # {})
          /\ (mm = "psk_max" => Cardinality(ps) >= 2)
          /\ (mm \in {"rs_i", "rs_i_bit"} => NeedsRemoteStatic(p, "i"))
          /\ (mm \in {"rs_r", "rs_r_bit"} => NeedsRemoteStatic(p, "r"))
-         /\ prm = [pp |-> PP(p, ps, pl, ip), prof |-> prof, variant |-> v, fixed |-> fx, late |-> late, bufs |-> bm,
+         /\ prm = [pp |-> PPH(p, ps, pl, ip, Hfs), prof |-> prof, variant |-> v, fixed |-> fx, late |-> late, bufs |-> bm,
                    mm |-> mm, ow |-> ow, extra |-> ex, xrs |-> xr]
   /\ ep = [id \in {"I", "R"} |-> Absent]
   /\ hist = <<>>
